@@ -476,19 +476,29 @@ def k5_preprocessor(code: int) -> bool:
 
 # ----------------------------------------------------------------------------- K4
 
+# @CASE@, @CASE2@: existing valid case files; @SUITE@: an existing valid suite file; @MISSING...@: names of no file
 INVALID_ARGV = (
     [],
-    ['--no-such-option', 'x.case'],
-    ['--act', '--keep', 'x.case'],
-    ['a.case', 'b.case'],
+    ['--no-such-option', '@CASE@'],
+    ['@CASE@', '@CASE2@'],
     ['--actor'],
     ['--suite'],
     ['--preprocessor'],
     ['--keep'],
     ['--act'],
+    ['@MISSING.case@'],
+    ['--keep', '@MISSING.case@'],
+    ['--act', '@MISSING.case@'],
+    ['--suite', '@MISSING.suite@', '@CASE@'],
+    ['--keep', '--suite', '@MISSING.suite@', '@CASE@'],
+    ['--suite', '@SUITE@', '@MISSING.case@'],
     ['suite'],
-    ['suite', '--reporter', 'no-such-reporter', 'x.suite'],
+    ['suite', '@MISSING.suite@'],
+    ['suite', '--reporter', 'no-such-reporter', '@SUITE@'],
+    ['suite', '@SUITE@', '@SUITE@'],
     ['symbol'],
+    ['symbol', '@MISSING.case@'],
+    ['symbol', '--suite', '@MISSING.suite@', '@CASE@'],
     ['help', 'no-such-help-item-xyz'],
 )
 
@@ -502,11 +512,31 @@ def k4_invalid_usage(i: int) -> bool:
     pre: _pre_k4(i)
     post: _
     """
+    import os
+    from vsym import scratch
     from exactly_lib.util.file_utils.std import StdOutputFiles
-    argv = list(ob.pick(INVALID_ARGV, i))
+    work = scratch.new_dir('c02k4')
+    files = {'@CASE@': ('x.case', '[act]\n$ true\n'), '@CASE2@': ('y.case', '[act]\n$ true\n'),
+             '@SUITE@': ('x.suite', '[cases]\nx.case\n')}
+    for name, text in files.values():
+        with open(os.path.join(work, name), 'w') as f:
+            f.write(text)
+    argv = []
+    for a in ob.pick(INVALID_ARGV, i):
+        if a in files:
+            a = os.path.join(work, files[a][0])
+        elif a.startswith('@MISSING'):
+            a = os.path.join(work, 'missing' + a[len('@MISSING'):-1])
+        argv.append(a)
     out, err = Sink(), Sink()
     mp = _main_program()
-    rc = mp.execute(argv, StdOutputFiles(out, err))
+    cwd = os.getcwd()
+    os.chdir(work)
+    try:
+        rc = mp.execute(argv, StdOutputFiles(out, err))
+    finally:
+        os.chdir(cwd)
+        scratch.remove(work)
     idents = set(TABLE) | {'OK', 'ERROR', 'INVALID_SUITE'}
     first_out = out.value().split('\n')[0].strip()
     first_err = err.value().split('\n')[0].strip()
